@@ -323,6 +323,9 @@ class Fn:
             if t["k"] == "call" and t["dest"]["local"] == 0 and not t["dest"]["proj"] and "from_residual" in t["callee"]:
                 # `?` propagating an error: the residual is written straight into the return place
                 out.append(bi)
+            elif t["k"] == "call" and t["dest"]["local"] == 0 and not t["dest"]["proj"] and self.rec["locals"][0].startswith("std::result::Result") and t["callee"] and "Result::Ok" not in t["callee"]:
+                # tail call of a fallible function: its Err becomes ours
+                out.append(bi)
         return out
 
     def switch_edges(self, bi):
